@@ -137,6 +137,7 @@ impl Prop for C12 {
         if stage == 0 {
             let progs = programs(tier);
             for i in a..b {
+            out.idx = Some(i);
                 let t = &progs[i as usize];
                 // put the tree through the parser in shapes the parser would not choose itself
                 for variant in forced_shapes(t) {
@@ -156,6 +157,7 @@ impl Prop for C12 {
         if stage == 2 {
             let hs = rereg_histories();
             for i in a..b {
+            out.idx = Some(i);
                 run_rereg(&hs[i as usize], out);
                 out.count("states", hs[i as usize].len() as u64);
                 out.count("transitions", hs[i as usize].len() as u64);
@@ -164,6 +166,7 @@ impl Prop for C12 {
         }
         let s = seqs(tier);
         for i in a..b {
+            out.idx = Some(i);
             let text = s.spaced(i);
             roundtrip(&text, &ops, "tokens", out);
         }
